@@ -240,6 +240,8 @@ class _Ctx:
     exp_mode = "uf"  # "uf" | "fresh"
     exp_apps = []  # arguments exp was applied to (uf mode)
     fresh = 0
+    fork_specials = False  # eager path split on NaN/inf flags and division by zero (keeps per-path formulas polynomial)
+    memo = {}  # per path: (kind, arg AST id) -> (arg kept alive, fresh var): same argument => same fresh variable
 
     def side(self, *cs):
         """register definitional side constraints (about fresh variables)."""
@@ -265,10 +267,11 @@ class _Ctx:
 
 
 CTX = _Ctx()
+FRESH_DEFS = {}  # fresh variable name -> ("sqrt", arg term): lets eval_term compute its value
 EXP = z3.Function("EXP", z3.RealSort(), z3.RealSort())
 
 
-def exp_axioms(apps=None):
+def exp_axioms(apps=None, pairwise=True):
     """Instantiated axioms for the uninterpreted EXP over the given application arguments."""
     apps = CTX.exp_apps if apps is None else apps
     args = list({a.get_id(): a for a in apps}.values())
@@ -276,8 +279,9 @@ def exp_axioms(apps=None):
     for a in args:
         ax += [EXP(a) > 0, z3.Implies(a <= 0, EXP(a) <= 1), z3.Implies(a == 0, EXP(a) == 1), z3.Implies(a < 0, EXP(a) < 1),
                z3.Implies(a > 0, EXP(a) > 1)]
-    for a, b in itertools.combinations(args, 2):
-        ax += [z3.Implies(a < b, EXP(a) < EXP(b)), z3.Implies(b < a, EXP(b) < EXP(a))]
+    if pairwise:
+        for a, b in itertools.combinations(args, 2):
+            ax += [z3.Implies(a < b, EXP(a) < EXP(b)), z3.Implies(b < a, EXP(b) < EXP(a))]
     return ax
 
 
@@ -497,7 +501,22 @@ class Infeasible(BaseException):
     """Current path has become infeasible (raised by the explorer; never caught by code under test)."""
 
 
+def _cf(a):
+    """fork mode: make the special-value flags of ``a`` concrete on this path."""
+    if not CTX.fork_specials or not (isz(a.nan) or isz(a.pinf) or isz(a.ninf)):
+        return a
+    ex = CTX.explorer
+    if ex.decide(a.nan):
+        return XF(Fraction(0), nan=True)
+    if ex.decide(a.pinf):
+        return XF(Fraction(0), pinf=True)
+    if ex.decide(a.ninf):
+        return XF(Fraction(0), ninf=True)
+    return XF(a.v)
+
+
 def xadd(a, b):
+    a, b = _cf(a), _cf(b)
     nan = Or(a.nan, b.nan, And(a.pinf, b.ninf), And(a.ninf, b.pinf))
     return XF(radd(a.v, b.v), nan, And(Not(nan), Or(a.pinf, b.pinf)), And(Not(nan), Or(a.ninf, b.ninf)))
 
@@ -511,6 +530,7 @@ def xsub(a, b):
 
 
 def xmul(a, b):
+    a, b = _cf(a), _cf(b)
     if a.inf() is False and b.inf() is False:
         return XF(rmul(a.v, b.v), Or(a.nan, b.nan))
     anyinf = Or(a.inf(), b.inf())
@@ -520,8 +540,23 @@ def xmul(a, b):
 
 
 def xdiv(a, b):
+    a, b = _cf(a), _cf(b)
+    if CTX.fork_specials and not b.nan and not a.nan and not b.pinf and not b.ninf and isz(b.v):
+        ex = CTX.explorer
+        if ex.decide(rcmp("==", b.v, 0)):
+            if a.pinf or a.ninf:
+                return XF(Fraction(0), pinf=bool(a.pinf), ninf=bool(a.ninf))
+            if ex.decide(rcmp("==", a.v, 0)):
+                return XF(Fraction(0), nan=True)
+            neg = ex.decide(rcmp("<", a.v, 0))
+            return XF(Fraction(0), pinf=not neg, ninf=neg)
+        if a.pinf or a.ninf:
+            neg = ex.decide(rcmp("<", b.v, 0))
+            pos = bool(a.pinf) != neg
+            return XF(Fraction(0), pinf=pos, ninf=not pos)
+        return XF(rdiv(a.v, b.v))
     bzero = b.is_zero()
-    if bzero is False and a.inf() is False and b.inf() is False:
+    if rcmp("==", b.v, 0) is False and a.inf() is False and b.inf() is False:
         return XF(rdiv(a.v, b.v), Or(a.nan, b.nan))
     azero = a.is_zero()
     nan = Or(a.nan, b.nan, And(bzero, azero), And(a.inf(), b.inf()))
@@ -534,6 +569,7 @@ def xdiv(a, b):
 
 
 def xabs(a):
+    a = _cf(a)
     return XF(RIte(rcmp("<", a.v, 0), rneg(a.v), a.v), a.nan, Or(a.pinf, a.ninf), False)
 
 
@@ -570,6 +606,7 @@ def xite(c, a, b):
 
 def xmax(a, b, propagate_nan=True):
     """torch.maximum / np.maximum: NaN if either is NaN."""
+    a, b = _cf(a), _cf(b)
     take_a = xcmp(">=", a, b)
     r = xite(take_a, a, b)
     if propagate_nan:
@@ -578,13 +615,14 @@ def xmax(a, b, propagate_nan=True):
 
 
 def xmin(a, b):
+    a, b = _cf(a), _cf(b)
     take_a = xcmp("<=", a, b)
     r = xite(take_a, a, b)
     return XF(r.v, Or(a.nan, b.nan), And(Not(Or(a.nan, b.nan)), r.pinf), And(Not(Or(a.nan, b.nan)), r.ninf))
 
 
 def xclamp(a, lo=None, hi=None):
-    r = a
+    r = _cf(a)
     if lo is not None:
         lo = XF.of(lo)
         r = xite(And(Not(r.nan), xcmp("<", r, lo)), lo, r)
@@ -606,6 +644,7 @@ def xnan_to_num(a, nan=0.0, posinf=None, neginf=None):
 
 
 def xexp(a):
+    a = _cf(a)
     if a.is_const():
         f = a.to_float()
         if f == 0:
@@ -620,8 +659,13 @@ def xexp(a):
     else:
         arg = a.v
     if CTX.exp_mode == "fresh":
-        w = CTX.fresh_real("exp")
-        CTX.side(w > 0, z3.Implies(arg <= 0, w <= 1), z3.Implies(arg >= 0, w >= 1))
+        hit = CTX.memo.get(("exp", arg.get_id()))
+        if hit is not None:
+            w = hit[1]
+        else:
+            w = CTX.fresh_real("exp")
+            CTX.memo[("exp", arg.get_id())] = (arg, w)
+            CTX.side(w > 0, z3.Implies(arg <= 0, w <= 1), z3.Implies(arg >= 0, w >= 1))
         e = w
     else:
         CTX.exp_apps.append(arg)
@@ -630,15 +674,26 @@ def xexp(a):
 
 
 def xsqrt(a):
+    a = _cf(a)
+    if CTX.fork_specials and a.fin() is True and isz(a.v):
+        if CTX.explorer.decide(rcmp("<", a.v, 0)):
+            return XF(Fraction(0), nan=True)
     if a.is_const():
         f = a.to_float()
         if f != f or f < 0:
             return XF.of(math.nan)
         r = math.sqrt(f)
         return XF.of(r)
-    r = CTX.fresh_real("sqrt")
     neg = And(a.fin(), rcmp("<", a.v, 0))
-    CTX.side(r >= 0, z3.Implies(zb(Not(neg)), r * r == R(a.v)))
+    av = R(a.v)
+    hit = CTX.memo.get(("sqrt", av.get_id()))
+    if hit is not None:
+        r = hit[1]
+    else:
+        r = CTX.fresh_real("sqrt")
+        CTX.memo[("sqrt", av.get_id())] = (av, r)
+        FRESH_DEFS[r.decl().name()] = ("sqrt", av)
+        CTX.side(r >= 0, z3.Implies(zb(Not(neg)), r * r == av))
     return XF(r, Or(a.nan, a.ninf, neg), a.pinf, False)
 
 
@@ -933,9 +988,15 @@ def _eval_node(e, a, env):
     if kind == K.Z3_OP_UNINTERPRETED:
         if len(a) == 0:
             name = d.name()
-            if name not in env:
-                raise KeyError(name)
-            return env[name]
+            try:
+                if name in env or not name.split("!")[0] in ("sqrt", "exp"):
+                    return env[name]
+            except KeyError:
+                pass
+            if name in FRESH_DEFS and FRESH_DEFS[name][0] == "sqrt":
+                v = eval_term(FRESH_DEFS[name][1], env)
+                return Fraction(math.sqrt(max(0.0, float(v))))
+            raise KeyError(name)
         if d.name() == "EXP":
             try:
                 return Fraction(math.exp(float(a[0])))
